@@ -200,6 +200,12 @@ def run_prot(prop, tier, seed, fail=False):
                          ["new", "fill:a5", "rawmlock", "resize:33", "drop"],
                          ["new", "fill:a5", "lock", "unlock", "rawmlock", "resize:%d" % (2 * n + 4096), "fill:a7", "clone", "drop", "drop@1"]):
                 mp.append(Case("prot bytes %d %s" % (n, " ".join(toks)), cls="bytes/application-locked-pages"))
+        # an unrelated failed system call earlier on the thread (a missing file probed: errno left non-zero) — releases wipe all the same
+        for n in (32, 3000, 4096, 8209):
+            for toks in (["failsys", "new", "fill:a5", "resize:%d" % (2 * n + 1), "fill:a6", "resize:3", "drop"],
+                         ["new", "fill:a5", "lock", "failsys", "resize:%d" % (n + 4096), "fill:a7", "ro", "clone", "drop", "drop@1"],
+                         ["new", "fill:a5", "failsys", "clone", "drop", "failsys", "drop@1"]):
+                mp.append(Case("prot bytes %d %s" % (n, " ".join(toks)), cls="bytes/after-a-failed-syscall"))
         mlines = assign_ids(mp)
         mimpl = run_engine(runner, mlines, env=env2)
         nb = 0
